@@ -148,6 +148,9 @@ CHOICE_decode_oer(const asn_codec_ctx_t *opt_codec_ctx,
 
     ASN_DEBUG("Decoding %s as CHOICE", td->name);
 
+    if(ASN__STACK_OVERFLOW_CHECK(opt_codec_ctx))
+        ASN__DECODE_FAILED;
+
     /*
      * Create the target structure if it is not present already.
      */
